@@ -10,8 +10,7 @@ SPEC = {
         {'pkg': 'execute', 'src': 'harness/execute/c11_test.go', 'test': 'TestVerif_C11_exec', 'fakes': True,
          'sinks': {'C11_exec': 'ce_judge'}, 'n': {'quick': 150, 'thorough': 6000}},
     ],
-    # Check/C11_check.ce_known: 1 = Roles.f18c_class, 2 = Roles.f18d_class
-    'known': {'1': 'F18c', '2': 'F18d'},
+    'known': {},
     'rule': 'VERIF_N worlds per plugin; a world = role assignment (4..7 oracles, destination, 2..3 sources, feed chain own / a source '
             '/ the destination; shapes: full access, random subsets, group without destination, group without feed, an oracle with a '
             'single source chain, an oracle with no chain) x scripted chain state (curses, enabled sources, RMN remote config set or unset, '
@@ -39,11 +38,9 @@ SPEC = {
                   'the reader-existence guards of pkg/reader/ccip.go, in the result monad) and Plugin.ValidateObservation: C11_commit - for all '
                   'role assignments, oracles, reader states, failing-call patterns and phases the commit observation is produced without panic '
                   'and accepted; C11_exec_valid / C11_exec_no_panic - whatever the execute plugin produces is accepted, never a panic; '
-                  'C11_exec_except_known - produced whenever all calls succeed, outside two recorded classes (F18c, F18d), which C11_exec_refuted '
-                  'exhibits; pre-repair functions refuted (F05, F18a, F18b). Correspondence: real plugins per oracle over role-limited readers, '
+                  'C11_exec - produced and accepted whenever all calls succeed, for every role; pre-repair functions refuted (F05, F18a, F18b, F18c, F18d). Correspondence: real plugins per oracle over role-limited readers, '
                   'every i against every j, every run',
-    'level_note': 'Trusted: Coq kernel, hand-written model, differential harness with scripted contract readers. No axioms. '
-                  'Recorded classes F18c/F18d mask mutants that only change whether those observations fail.',
+    'level_note': 'Trusted: Coq kernel, hand-written model, differential harness with scripted contract readers. No axioms.',
     'modelled': 'commit.Plugin.Observation (discovery, merkleroot observer, tokenprice, chainfee processors), execute.Plugin.Observation '
                 '(getCommitReportsObservation, getMessagesObservation incl. readAllMessages and the costly-message observer, getFilterObservation), '
                 'ccipChainReader guards (DiscoverContracts, GetRmnCurseInfo, NextSeqNum, GetExpectedNextSequenceNumber, GetRMNRemoteConfig, '
